@@ -8,3 +8,11 @@ namespace verif_c14 {
     };
 }    // namespace verif_c14
 template class pika::stop_callback<verif_c14::cb>;
+namespace verif_c14 {
+    // the constructors are member templates: instantiate both (token by const reference / by rvalue)
+    inline void instantiate(pika::stop_token const& t, pika::stop_token&& u)
+    {
+        pika::stop_callback<cb> a(t, cb{});
+        pika::stop_callback<cb> b(std::move(u), cb{});
+    }
+}    // namespace verif_c14
